@@ -70,3 +70,26 @@ def cossin_monitor(ctx, log):
             return res
         return wrapped
     return factory
+
+
+import contextlib as _contextlib
+import signal as _signal
+
+
+class InstanceTimeout(Exception):
+    """the implementation did not return within the (generous) per-instance limit"""
+
+
+@_contextlib.contextmanager
+def time_limit(seconds):
+    """per-instance watchdog (main thread, SIGALRM): a construction that normally takes well under a second and now runs for minutes
+    has stopped terminating; the check reports that instance instead of hanging"""
+    def handler(signum, frame):
+        raise InstanceTimeout(f"no result after {seconds} s")
+    old = _signal.signal(_signal.SIGALRM, handler)
+    _signal.alarm(int(seconds))
+    try:
+        yield
+    finally:
+        _signal.alarm(0)
+        _signal.signal(_signal.SIGALRM, old)
